@@ -398,9 +398,9 @@ def check_coll_trim(case, T):
         ok = got == want
     if not ok:
         cls = shape
-        if rna and not rejected and (aligned or any("-" in s for s in seqs)) and not isinstance(got, dict):
+        if rna and (aligned or any("-" in s for s in seqs)) and not isinstance(got, dict):
             # every sequence is either right or an untouched gapped sequence whose stop should have gone
-            if all(g == w or (("-" in s or aligned) and g.rstrip("-") == _u(s, True).rstrip("-")) for s, w, g in zip(seqs, want, got)):
+            if all(g == w or (("-" in s or aligned) and g.rstrip("-") == _u(s, True).rstrip("-")) for s, w, g in zip(seqs, lax if rejected else want, got)):
                 cls = "rna-gapped-terminal-stop-not-trimmed"
         return dict(what=f"{entry}.trim_stop_codons(strict={strict}) [{mt}]", expected=want, got=got, sig=f"{entry}.trim_stop_codons[{mt}]:{cls}")
     want = None if any(o_has_terminal_stop(tbl, s, strict) is None for s in seqs) else any(o_has_terminal_stop(tbl, s, strict) for s in seqs)
